@@ -4,7 +4,7 @@
    says it behaves as the model Pat/Ere.v on the regex strings inside that model (checked against the real
    libc by the correspondence run).  [st0] is the arbitrary prior state of the (re-used / recycled) object. *)
 From Coq Require Import List NArith Bool.
-From Muscle Require Import Gen.Consts Pat.Ere Pat.EreProofs Pat.Translate Pat.Simple Pat.RangeProofs Pat.UvProofs Pat.SimpleParse Pat.RangeParse Pat.PatSpec Pat.PatProofs.
+From Muscle Require Import Gen.Consts Pat.Ere Pat.EreProofs Pat.Translate Pat.Simple Pat.RangeProofs Pat.UvProofs Pat.SimpleParse Pat.SimpleParseProofs Pat.SimpleParseComplete Pat.RangeParse Pat.PatSpec Pat.PatProofs.
 Import ListNotations.
 Local Open Scope N_scope.
 
@@ -61,6 +61,13 @@ Theorem C15_translate_correct_str_partial :
     (matches (fst (set_pattern engine st0 (ch_tilde :: p) true)) s = true <-> ~ den_alt al s).
 Proof. exact translate_correct_str. Qed.
 Print Assumptions C15_translate_correct_str_partial.
+
+(* The reader accepts exactly the concrete syntax of the well-formed trees (so the string-level statement is as
+   general as the tree-level one, and the concrete syntax is unambiguous). *)
+Theorem C15_sparse_exact :
+  forall p al, sparse p = Some al <-> (p = print_alt al /\ wf_pattern al = true).
+Proof. exact sparse_exact. Qed.
+Print Assumptions C15_sparse_exact.
 
 (* Escaping a string with EscapeRegexTokens yields a pattern that matches that string and no other. *)
 Theorem C15_escape_exact :
